@@ -948,6 +948,65 @@ def rebind_program(rng):
     return text, nph[0], exp
 
 
+def nested_except_program(rng):
+    """Closed-form program: try forms nested inside except handlers (depth 2-3) that bind the
+    SAME handler variable (or different ones, as control); the inner handler fires or not;
+    every outer handler reads its variable before and after the inner try (log / return /
+    re-raise :from). Returns (template, number of placeholders, expected events)."""
+    ids = itertools.count(1)
+    consts = itertools.count(20)
+    depth = rng.randint(2, 3)
+    same = rng.random() < 0.7
+    nph = [1]
+    exp = []
+
+    def name_for(d):
+        if same or (d > 0 and rng.random() < 0.3):
+            return ph(0)
+        nph[0] += 1
+        return ph(nph[0] - 1)
+
+    def level(d):
+        v = next(consts)
+        ty = "EA" if d % 2 == 0 else "EB"
+        n = name_for(d)
+        k1 = next(ids)
+        exp.append([k1, ["int", repr(v)]])
+        inner = ""
+        if d + 1 < depth:
+            if rng.random() < 0.75:
+                inner = " " + level(d + 1)                      # the inner handler fires
+            else:
+                n2, k = name_for(d + 1), next(ids)                 # inner try completes normally
+                exp.append([k, ["int", "0"]])
+                inner = f" (try (L {k} 0) (except [{n2} {'EB' if ty == 'EA' else 'EA'}] (get {n2}.args 0)))"
+        k2 = next(ids)
+        after = rng.choice(["log", "log", "from", "ret"])
+        if after == "from":
+            k3, w = next(ids), next(consts)
+            exp.append([k2, ["int", repr(v)]])
+            exp.append([k3, ["int", repr(v)]])
+            tail = (f"(L {k2} (get {n}.args 0)) (try (raise (ValueError {w}) :from {n}) "
+                    f"(except [ve ValueError] (L {k3} (get ve.__cause__.args 0))))")
+        elif after == "ret":
+            exp.append([k2, ["int", repr(v)]])
+            tail = f"(L {k2} ((fn [] (get {n}.args 0))))"
+        else:
+            exp.append([k2, ["int", repr(v)]])
+            tail = f"(L {k2} (get {n}.args 0))"
+        return f"(try (raise ({ty} {v})) (except [{n} {ty}] (L {k1} (get {n}.args 0)){inner} {tail}))"
+
+    text = level(0)
+    w = rng.random()
+    if w < 0.6:
+        nph[0] += 1
+        f = ph(nph[0] - 1)
+        text = f"(defn {f} [] {text})\n({f})"
+    elif w < 0.75:
+        text = f"((fn [] {text}))"
+    return text, nph[0], exp
+
+
 def digit_program(rng):
     """Closed-form program with MANY simultaneously live let bindings (10-45 temporaries in one
     compilation unit) among which two user names are chosen so that `name + serial number`
